@@ -152,8 +152,29 @@ type zvfVInst struct {
 	fv     []string
 	classes map[string]string
 	rmu    sync.Mutex
+	pwVar  int  // how the abstract passphrases are instantiated (see pw)
 	wedged bool // an operation did not return (watchdog): the instance is not driven any further
 	echo   bool // the proxy echoes extension requests (concurrency harness): Forward/Extension check the echo
+}
+
+// pw instantiates an abstract passphrase name.  Distinct names are distinct byte strings - in most instances strings
+// that differ only in a trailing line terminator, in letter case or in surrounding blanks, the near misses a
+// "helpful" normalisation would identify ("only the passphrase unlocks").
+func (in *zvfVInst) pw(name string) []byte {
+	idx := map[string]int{"p1": 0, "p2": 1, "other": 2}
+	i, ok := idx[name]
+	if !ok {
+		return []byte(name)
+	}
+	switch in.pwVar {
+	case 1:
+		return []byte([]string{"s3cret", "s3cret\n", "s3cret\r\n"}[i])
+	case 2:
+		return []byte([]string{"Pass phrase", "pass phrase", " Pass phrase"}[i])
+	case 3:
+		return []byte([]string{"pw\x00", "pw", "pw "}[i])
+	}
+	return []byte(name)
 }
 
 // rint is a goroutine-safe in.rnd.Intn.
@@ -324,6 +345,13 @@ func zvfNewInstSK(u *zvfVUniverse, init zvfVState, zvfHasTick bool, rnd *mrand.R
 		in.byHash[hash(crt.Marshal())] = c
 		in.classes[c] = class + "/" + kclass
 	}
+	in.pwVar = int(uint64(rnd.Int63()) % 4)
+	for i, n := range []string{"plain", "line-terminator", "case-and-blank", "nul-and-blank"} {
+		if force["pass"] == n {
+			in.pwVar = i
+		}
+	}
+	in.classes["pass"] = []string{"plain", "line-terminator", "case-and-blank", "nul-and-blank"}[in.pwVar]
 	in.fx = verifh.NewFlexAgent()
 	in.kr = in.fx
 	for _, id := range zvfNormSet(init.U) {
@@ -409,7 +437,7 @@ func (in *zvfVInst) project() zvfVState {
 		st.Ul = true
 		st.Up = "?"
 		for _, p := range cands {
-			if in.kr.Unlock([]byte(p)) == nil {
+			if in.kr.Unlock(in.pw(p)) == nil {
 				st.Up = p
 				break
 			}
@@ -421,7 +449,7 @@ func (in *zvfVInst) project() zvfVState {
 			st.U = append(st.U, in.idOf(k.Blob))
 		}
 		if st.Ul {
-			if err := in.kr.Lock([]byte(st.Up)); err != nil {
+			if err := in.kr.Lock(in.pw(st.Up)); err != nil {
 				panic(err)
 			}
 		}
@@ -608,9 +636,9 @@ func (in *zvfVInst) exec(op, arg string) (res zvfVRes) {
 	case "removeall":
 		return zvfVRes{Ok: s.RemoveAll() == nil}
 	case "lock":
-		return zvfVRes{Ok: s.Lock([]byte(arg)) == nil}
+		return zvfVRes{Ok: s.Lock(in.pw(arg)) == nil}
 	case "unlock":
-		return zvfVRes{Ok: s.Unlock([]byte(arg)) == nil}
+		return zvfVRes{Ok: s.Unlock(in.pw(arg)) == nil}
 	case "lockrace", "lockrace2":
 		// Lock(arg) is in flight (the underlying agent has its lock request and has not answered yet) when another
 		// client's List (lockrace) / RemoveAll (lockrace2) arrives.  ok = Lock's result; the other call's outcome goes
@@ -633,7 +661,7 @@ func (in *zvfVInst) exec(op, arg string) (res zvfVRes) {
 		}
 		defer func() { in.px.Gate = oldGate }()
 		lockDone := make(chan bool, 1)
-		go func() { lockDone <- s.Lock([]byte(arg)) == nil }()
+		go func() { lockDone <- s.Lock(in.pw(arg)) == nil }()
 		select {
 		case <-reached:
 		case ok := <-lockDone:
@@ -810,12 +838,12 @@ func (in *zvfVInst) exec(op, arg string) (res zvfVRes) {
 		}
 		return zvfVRes{Ok: true}
 	case "dlock":
-		if err := in.kr.Lock([]byte("other")); err != nil {
+		if err := in.kr.Lock(in.pw("other")); err != nil {
 			panic("verif: dlock failed: " + err.Error())
 		}
 		return zvfVRes{Ok: true}
 	case "dunlock":
-		if err := in.kr.Unlock([]byte("other")); err != nil {
+		if err := in.kr.Unlock(in.pw("other")); err != nil {
 			panic("verif: dunlock failed: " + err.Error())
 		}
 		return zvfVRes{Ok: true}
